@@ -232,6 +232,25 @@ def vfsCtl (slotKnown : Bool) (toks : List String) : List String :=
     if t.startsWith "w" || t.startsWith "t" || t == "-" || t == "" then none
     else if t.startsWith "h" && !slotKnown then some "h?" else some t
 
+/-- canonical form of a sequence of file-level operations: the page writes between two control operations
+    (sync, header write) as a sorted list, the control operations in order; truncates skipped.  Two sequences
+    with the same canonical form differ only in the order of writes between two control operations. -/
+def vfsCanon (slotKnown : Bool) (toks : List String) : List String :=
+  let rec go (cur : List Nat) (acc : List String) : List String → List String
+    | [] => (acc ++ [toString (sortNats cur)])
+    | t :: ts =>
+      if t.startsWith "w" then go (cur ++ ((t.drop 1).toNat?).toList) acc ts
+      else if t.startsWith "t" || t == "-" || t == "" then go cur acc ts
+      else go [] (acc ++ [toString (sortNats cur), if t.startsWith "h" && !slotKnown then "h?" else t]) ts
+  go [] [] toks
+
+def traceToks (tr : List TOp) : List String :=
+  tr.filterMap fun
+    | .write p _ => some s!"w{p}"
+    | .sync => some "s"
+    | .hdr k _ _ => some s!"h{k}"
+    | _ => none
+
 def vfsSlot (toks : List String) : Option Nat :=
   (toks.filter (·.startsWith "h")).getLast?.bind fun t => (t.drop 1).toNat?
 
@@ -246,6 +265,9 @@ def vfsStep (s : EngSt) (line : String) (ops : String) : EngSt :=
       s.miss line s!"vfs: model writes pages {traceWrites tr}"
     else if committed then
       if traceCtl known tr != vfsCtl known toks then s.miss line s!"vfs: model issues {traceCtl known tr}"
+      -- every write in front of the sync that precedes the header (segment by segment)
+      else if vfsCanon known (traceToks tr) != vfsCanon known toks then
+        s.miss line s!"vfs: writes on the wrong side of a sync, model: {vfsCanon known (traceToks tr)}"
       else { s with slot := vfsSlot toks, vfsChecked := s.vfsChecked + 1 }.ok
     else
       -- no commit: no header write; syncs of a failing commit are allowed (nothing new can become the state)
